@@ -64,6 +64,8 @@ type baseSink struct {
 	ops       []baseOp
 	startFail func(n int) bool
 	starts    int
+	writeFail func(n int) bool
+	writes    int
 }
 
 func (b *baseSink) StopRecording() error {
@@ -81,6 +83,12 @@ func (b *baseSink) StartRecording(bg *cptvframe.Frame, th uint16) error {
 	return nil
 }
 func (b *baseSink) WriteFrame(f *cptvframe.Frame) error {
+	b.writes++
+	if b.writeFail != nil && b.writeFail(b.writes) {
+		// the frame did not reach storage (C05 counts frames that did)
+		b.ops = append(b.ops, baseOp{Op: 'W', Seq: f.Status.FrameCount, T: b.clock.now, Err: true})
+		return errors.New("injected write failure")
+	}
 	b.ops = append(b.ops, baseOp{Op: 'W', Seq: f.Status.FrameCount, T: b.clock.now})
 	return nil
 }
@@ -454,9 +462,15 @@ func pairingCheck(ops []baseOp) string {
 	return ""
 }
 
+// thWriteFail, when set (C05 runs only), makes the wrapped recorder's writes fail.
+var thWriteFail func(n int) bool
+
 func runSchedule(c *vCtx, prop string, cfg thConfig, ops []callerOp, startFail func(int) bool, label string) {
 	r := newThRun(cfg)
 	r.base.startFail = startFail
+	if prop == "C05" {
+		r.base.writeFail = thWriteFail
+	}
 	m := &c06Monitor{}
 	frame := cptvframe.NewFrame(tCam{4, 3, cfg.FPS})
 	bg := cptvframe.NewFrame(tCam{4, 3, cfg.FPS})
@@ -477,7 +491,7 @@ func runSchedule(c *vCtx, prop string, cfg thConfig, ops []callerOp, startFail f
 		th := uint16(3000 + i%7)
 		m.apply(r, i, op, frame, bg, th)
 		callerRec = m.callerRec
-		if m.viol != nil {
+		if m.viol != nil && r.base.writeFail == nil {
 			break
 		}
 	}
@@ -559,7 +573,14 @@ func TestVerif_Throttle(t *testing.T) {
 		c.Case(myIdx, func() interface{} {
 			return map[string]interface{}{"config": cfg.String(), "schedule": schedString(ops, 200), "wrapped_start_failure_pct": pf}
 		}, func() {
+			if prop == "C05" && myIdx%4 == 1 {
+				// the storage behind the throttle loses writes: tokens spent on them are gone
+				wp := uint64(10 + myIdx%3*20)
+				thWriteFail = func(n int) bool { return vMix(fseed^0x5eed^uint64(n))%100 < wp }
+				c.Count("schedules_with_write_failures", 1)
+			}
 			runSchedule(c, prop, cfg, ops, sf, "random-schedule")
+			thWriteFail = nil
 			if pf > 0 {
 				c.Count("schedules_with_start_failures", 1)
 			}
